@@ -274,6 +274,7 @@ pub fn light_use<T: Transport>(d: &mut AnyDriver<T>, heavy: bool) -> Result<()> 
         }
         AnyDriver::Gpu(g) => {
             let _ = g.resolution()?;
+            g.move_cursor(1, 2)?;
             match g.get_edid(0) {
                 Ok(_) | Err(Error::Unsupported) => {}
                 Err(e) => return Err(e),
@@ -345,6 +346,20 @@ pub fn light_use<T: Transport>(d: &mut AnyDriver<T>, heavy: bool) -> Result<()> 
         }
     }
     Ok(())
+}
+
+impl Kind {
+    /// Queues on which the driver only issues blocking request/response exchanges (so that at an
+    /// operation boundary every completion has been consumed).
+    pub fn request_queues(self) -> &'static [u16] {
+        match self {
+            Kind::Blk | Kind::Rng | Kind::Rtc | Kind::P9 => &[0],
+            Kind::Console | Kind::NetRaw | Kind::Net | Kind::Socket => &[1],
+            Kind::Gpu => &[0, 1],
+            Kind::Sound => &[0],
+            Kind::Input => &[],
+        }
+    }
 }
 
 pub fn kind_name(k: Kind) -> &'static str {
